@@ -29,7 +29,9 @@ LEVEL_TEXT = ("Machine-checked proof (Coq 8.16.1) over an executable command-lev
               "(tls gate) with TLS required and no completed upgrade every non-IDENTIFY command gets the fatal E_INVALID, consumes and changes nothing and ends the connection, the TLS flag "
               "is set only by a completed upgrade inside a tls_v1 IDENTIFY, plaintext HTTP is 403 iff tls-required=required; (auth gate) a topic/channel creation, enqueue or subscription "
               "happens only in a PUB/MPUB/DPUB/SUB that follows a successful AUTH and only if the answer in force (cached while unexpired, else the one fetched by this command's re-query, "
-              "and always an answer this connection obtained from the auth server) grants that topic and channel; (no trace) E_AUTH_FIRST / E_AUTH_FAILED / E_UNAUTHORIZED is the single, "
+              "and always an answer this connection obtained from the auth server) grants that topic and channel; (decision) both directions with the documented codes: past the TLS gate and its own "
+              "syntax checks such a command is refused with exactly E_AUTH_FIRST (no successful AUTH) / E_AUTH_FAILED (expired and the re-query fails) / E_UNAUTHORIZED (answer in force does not grant) "
+              "and otherwise gets its normal answer and exactly its normal effects; (no trace) E_AUTH_FIRST / E_AUTH_FAILED / E_UNAUTHORIZED is the single, "
               "fatal answer of a command that changed nothing. Tied to the source by tables regenerated on every run (Exec dispatch rows vs the gate, enforceTLSPolicy's condition, "
               "the single writer of client.TLS, the four handlers' event order with the guarded CheckAuth first, CheckAuth's fatal returns, newHTTPServer wiring, ServeHTTP's guard) "
               "and by differential correspondence on a real nsqd with a scripted auth server.")
